@@ -202,8 +202,8 @@ def lsl(cx, N, part=None):
 
 
 BOUNDS = {
-    'quick': 'save->load of files whose single track holds every ORDERED PAIR of the 37 message kinds (7 channel types, 4 '
-             'system common, sysex L=0/1/2, 15 known meta kinds, unknown meta with 0/2 data bytes), all attributes symbolic '
+    'quick': 'save->load of files whose single track holds every ORDERED PAIR of the 27 message kinds (7 channel types, 4 '
+             'system common, sysex L=0/1/2, 11 known meta kinds, unknown meta with 0/2 data bytes), all attributes symbolic '
              'in range (running status triggered and broken by the solver), first delta in [0, 2^28), second in 0..127, '
              'ticks_per_beat in 1..32767; both deltas wide for representative pairs; 2-track and type 0/2 variants; one '
              'delta up to 2^35; header symbolic; payload lengths 0,1,127,128,129,16383,16384; refusal cases; fixed point '
